@@ -1,9 +1,10 @@
 INIT Init
 NEXT MCNext
 CONSTANTS
-  Stacks <- Stacks1
+  Stacks <- StackFull1
+  Indeps <- OnlyIndep
   Targets <- AllTargets
-  MaxHooks = 1
+  MaxHooks = 0
   InitRegs <- NoRegs
   RegClasses <- C4RegClasses
   RegBehs <- C4RegBehsAll
@@ -13,7 +14,7 @@ CONSTANTS
   Mro <- MCMro
   StatusOf <- MCStatus
   WrongDesign = "none"
-  MaxFaults = 2
+  MaxFaults = 1
 INVARIANT TypeOK
 INVARIANT ReqTopDown
 INVARIANT ResourceMwOnlyIfRouted
